@@ -43,6 +43,8 @@ type c19Params struct {
 	// Declined (resumed mode): the client has narrowed its suites since the session was made, so that the server
 	// finds the offered session, declines to resume it and a full handshake follows
 	Declined bool `json:"declined,omitempty"`
+	// SrvReadFrom: the server application reads its data with ReadFrom (not Read)
+	SrvReadFrom bool `json:"srv_readfrom,omitempty"`
 }
 
 func (c19) ID() string    { return "C19" }
@@ -118,6 +120,10 @@ func c19List(tier string) []c19Params {
 						out = append(out, c19Params{Suite: m.suite, Auth: m.auth, Resumed: resumed, WallAhead: true, Plan: []simnet.DFault{c19Fault(s.dir, s.name, k)}})
 					}
 					out = append(out, c19Params{Suite: m.suite, Auth: m.auth, Resumed: resumed, MinuteEdge: true, Plan: []simnet.DFault{c19Fault(s.dir, s.name, simnet.FDrop)}})
+				}
+				for _, s := range slots {
+					// the server application uses ReadFrom
+					out = append(out, c19Params{Suite: m.suite, Auth: m.auth, Resumed: resumed, SrvReadFrom: true, Plan: []simnet.DFault{c19Fault(s.dir, s.name, simnet.FDrop)}})
 				}
 				if resumed {
 					// the offered session is found but not resumed (the client no longer enables its suite): the
@@ -324,7 +330,7 @@ func c19RunPlan(c *Case, src *vs.Src, p *c19Params, plan []simnet.DFault, r *Res
 			pair.Net.SetPlan(plan)
 		}
 		out := &HSOut{}
-		SpawnHandshakeEcho(w, pair, EchoOpts{Echo: true, C2S: payload(src, 200, 1), S2C: payload(src, 300, 2)}, out, "")
+		SpawnHandshakeEcho(w, pair, EchoOpts{Echo: true, C2S: payload(src, 200, 1), S2C: payload(src, 300, 2), SrvReadFrom: p.SrvReadFrom && conn == conns-1}, out, "")
 		res.reason, unf = w.Run()
 		w.Finish(r, sigp)
 		out.Collect(pair)
@@ -409,7 +415,7 @@ func (c19) Run(c *Case, src *vs.Src) *Result {
 	}
 	sigp := "C19 " + mode
 	res := c19RunPlan(c, src, p, p.Plan, r, sigp)
-	r.Key = hashKey(p.Suite, p.Auth, p.Resumed, p.InitMs, p.MaxMs, p.WallAhead, p.MinuteEdge, p.Declined, planSig(p.Plan))
+	r.Key = hashKey(p.Suite, p.Auth, p.Resumed, p.InitMs, p.MaxMs, p.WallAhead, p.MinuteEdge, p.Declined, p.SrvReadFrom, planSig(p.Plan))
 	if res.setup != "" {
 		r.Violate("setup", sigp+" setup-failed", "%s", res.setup)
 		return r
